@@ -45,7 +45,9 @@ type startEvent struct {
 	once        sync.Once
 	activated   atomic.Bool
 	idGenerator id.IGenerator
-	satisfier   *logic.CatchEventSatisfier
+	// running is true while the run loop (started by Trigger / NextAction) drains mch
+	running   atomic.Bool
+	satisfier *logic.CatchEventSatisfier
 }
 
 func newStartEvent(wr *wiring, element *schema.StartEvent, idGenerator id.IGenerator) (evt *startEvent, err error) {
@@ -78,6 +80,7 @@ func newStartEvent(wr *wiring, element *schema.StartEvent, idGenerator id.IGener
 
 func (evt *startEvent) run(ctx context.Context, sender tracing.ISenderHandle) {
 	defer sender.Done()
+	defer evt.running.Store(false)
 
 	for {
 		select {
@@ -113,14 +116,22 @@ func (evt *startEvent) flow(ctx context.Context) {
 }
 
 func (evt *startEvent) ConsumeEvent(ev event.IEvent) (result event.ConsumptionResult, err error) {
-	evt.mch <- eventMessage{event: ev}
 	result = event.Consumed
+	// Nobody drains the node's small inbox before its run loop has been
+	// started (by Trigger or by the first token) or after it has ended: an
+	// event queued then could never be handled, and once the inbox is full
+	// the delivery - Process.ConsumeEvent - would block forever.
+	if !evt.running.Load() {
+		return
+	}
+	evt.mch <- eventMessage{event: ev}
 	return
 }
 
 func (evt *startEvent) Trigger(ctx context.Context) {
 	evt.once.Do(func() {
 		sender := evt.tracer.RegisterSender()
+		evt.running.Store(true)
 		go evt.run(ctx, sender)
 	})
 
@@ -130,6 +141,7 @@ func (evt *startEvent) Trigger(ctx context.Context) {
 func (evt *startEvent) NextAction(ctx context.Context, flow Flow) chan IAction {
 	evt.once.Do(func() {
 		sender := evt.tracer.RegisterSender()
+		evt.running.Store(true)
 		go evt.run(ctx, sender)
 	})
 
